@@ -31,6 +31,55 @@ from hutil import attempt  # noqa: E402
 F = Fraction
 
 
+def cartopy_standin():
+    """In this sandbox PROJ (9.8) evaluates the equirectangular projection on the ellipsoid, which cartopy's PlateCarree
+    (0.25) does not expect: a PlateCarree latitude is read as a meridional arc length, so an azimuthal equidistant projection
+    maps its own centre about 734 m per degree of latitude away from (0, 0) and every metre distance emsarray derives from
+    cartopy is wrong away from the equator.  That is a fault of the installed cartopy / PROJ pair, not of emsarray.  When (and
+    only when) the fault is present, points are projected from the geodetic form of the same CRS instead, which is what
+    PlateCarree means; nothing in emsarray is replaced.  Returns whether the stand-in was installed."""
+    import math
+    from cartopy import crs
+    c = crs.AzimuthalEquidistant(central_longitude=7, central_latitude=60)
+    o = c.project_geometry(shapely.Point(7, 60), crs.PlateCarree())
+    if math.hypot(o.x, o.y) < 1e-3:
+        return False
+    if getattr(crs.Projection.project_geometry, '_verif_standin', False):
+        return True
+    orig = crs.Projection.project_geometry
+
+    def project_geometry(self, geometry, src_crs=None):
+        if (isinstance(src_crs, crs.PlateCarree) and isinstance(self, crs.AzimuthalEquidistant)
+                and geometry.geom_type == 'Point' and not src_crs.proj4_params.get('lon_0')):
+            x, y = self.transform_point(geometry.x, geometry.y, src_crs.as_geodetic())
+            return shapely.Point(x, y)
+        return orig(self, geometry, src_crs)
+    project_geometry._verif_standin = True
+    crs.Projection.project_geometry = project_geometry
+    return True
+
+
+def path_distances(pts):
+    """cumulative distance in metres at each vertex of the path: geodesic length of each leg on the WGS84 ellipsoid, which
+    is what an azimuthal equidistant projection centred on the leg's first vertex measures"""
+    import pyproj
+    g = pyproj.Geod(ellps='WGS84')
+    cum = [0.0]
+    for a, b in zip(pts, pts[1:]):
+        cum.append(cum[-1] + g.inv(a[0], a[1], b[0], b[1])[2])
+    return g, cum
+
+
+def distance_at(g, cum, pts, path, pos):
+    """metres along the path of the exact position pos: the accumulated legs before it plus the distance from the vertex
+    that precedes it"""
+    if pos == int(pos):
+        return cum[int(pos)]
+    leg = int(pos)
+    x, y = point_at(path, pos)
+    return cum[leg] + g.inv(pts[leg][0], pts[leg][1], x, y)[2]
+
+
 def fpt(p):
     return (F(float(p[0])), F(float(p[1])))
 
@@ -188,6 +237,21 @@ def make_paths(rng, polys, n):
     return out
 
 
+def shift_latitudes(ds, dy):
+    """The same dataset moved north by dy degrees: every latitude variable and its bounds."""
+    lat = [n for n, v in ds.variables.items() if v.dtype.kind == 'f' and (
+        v.attrs.get('units') == 'degrees_north' or v.attrs.get('standard_name') == 'latitude' or v.attrs.get('axis') == 'Y')]
+    lat += [ds[n].attrs['bounds'] for n in lat if ds[n].attrs.get('bounds') in ds.variables]
+    if not lat or max(float(numpy.nanmax(ds[n].values)) for n in lat) + dy > 85:
+        return ds
+    out = ds.copy(deep=True)
+    for n in lat:
+        v = ds[n]
+        new = xarray.Variable(v.dims, v.values + dy, v.attrs, v.encoding)
+        out = out.assign_coords({n: new}) if n in ds.coords else out.assign({n: new})
+    return out
+
+
 def run(ctx):
     rng = ctx.rng
     quick = ctx.tier == 'quick'
@@ -196,6 +260,7 @@ def run(ctx):
                 'An exact rational oracle clips every leg against every cell; pieces are compared with the implementation (1e-9 '
                 'degrees), ordering with the model. non-trivial = at least two pieces; distinct by dataset and path')
     n_ds = 20 if quick else 100
+    ctx.count(f'environment:cartopy PlateCarree stand-in {"installed" if cartopy_standin() else "not needed"}')
     exprs, plans = [], []
     for n in range(n_ds):
         fam = gen.FAMILIES[n % len(gen.FAMILIES)]
@@ -204,6 +269,10 @@ def run(ctx):
         nm1, _ = gen.DEPTH_NAMES.get(d.family, (None, None))
         ds, sp = gen.add_depth(rng, d.ds, dim='k', name=nm1, positive='attr', second=False)
         depth_name = sp['coords'][0]['name']
+        # a third of the datasets sit at high latitude, where a degree of longitude is half a degree of latitude
+        shift = rng.choice([0.0, 0.0, 56.0])
+        if shift:
+            ds = shift_latitudes(ds, shift)
         gdims = d.spec['kinds']['face']
         shape = [ds.sizes[g] for g in gdims]
         ncell = int(numpy.prod(shape))
@@ -223,6 +292,8 @@ def run(ctx):
         rings = [None if p is None else [fpt(v) for v in p] for p in polys]
         label = d.spec['label']
         ctx.count(f'family:{d.family}')
+        ctx.count(f'latitude shift:{shift}')
+        label = f'{label} north={shift}'
         for kind, pts in make_paths(rng, polys, 5 if quick else 8):
             path = [fpt(p) for p in pts]
             want, breaks = oracle_pieces(path, rings)
@@ -304,6 +375,22 @@ def run(ctx):
                                f'the lengths do not add up')
                     if min(a1, b1) < min(a2, b2) and s1.start_distance > s2.start_distance + 1e-6:
                         bad = 'a piece further along the path has a smaller start distance'
+            if bad:
+                ctx.report('property', bad, case)
+                continue
+            # ---- distances in metres: accumulated per path vertex, so that piece lengths add up to the length of the path
+            # inside the model
+            g, cum = path_distances(pts)
+            for (c1, a1, b1), s1 in zip(model_pieces, segs):
+                lo, hi = min(a1, b1), max(a1, b1)
+                for what, got, pos in (('start', s1.start_distance, lo), ('end', s1.end_distance, hi)):
+                    want_d = distance_at(g, cum, pts, path, pos)
+                    if abs(got - want_d) > 1e-6 * want_d + 1e-2:
+                        bad = (f'piece of cell {c1}: {what} distance {got!r} m, the path reaches that point after '
+                               f'{want_d!r} m (legs measured from each vertex and accumulated)')
+                        break
+                if bad:
+                    break
             if bad:
                 ctx.report('property', bad, case)
                 continue
